@@ -39,6 +39,11 @@ theorem ring_window_injective (cap c r1 r2 : Nat) (h1 : c < r1) (h1' : r1 < c + 
     rw [Nat.mod_eq_of_lt hlt] at hz
     omega
 
+/-- C04 / C20: on TiKV a batch whose transaction could not be started returns that error from `Commit` (the
+deferred rollback is guarded): the write handler then reports the dealt revision as every other storage error —
+the model's `Fault.err` — instead of panicking past the report. -/
+theorem tikv_commit_guards_nil_txn : tikvCommitGuardsNilTxn = true := by decide
+
 theorem order_facts_resolved : orderFactsUnresolved = [] := by decide
 
 end KB.OrderC04
